@@ -26,10 +26,11 @@ func init() {
 }
 
 func genWalFault(g *gen, n int, tier string, w *bufio.Writer) {
+	c0 := g.intn(1 << 20) // phase of the case kinds: generation is chunked, every chunk must reach every kind
 	for c := 0; c < n; c++ {
 		fmt.Fprintf(w, "# case %d\n", c)
 		fmt.Fprintln(w, "new")
-		if c%12 == 7 {
+		if (c+c0)%12 == 7 {
 			// an intact older file, then a newest file of > 6 x 32 KB whose FIRST record gets damaged: the reader gives up
 			// on that file ("too many corrupted entries at start") and must still deliver the older file
 			for i := 0; i < 3; i++ {
@@ -47,7 +48,7 @@ func genWalFault(g *gen, n int, tier string, w *bufio.Writer) {
 			fmt.Fprintln(w, "engcutrec 0")
 			continue
 		}
-		frag := c%6 == 5 // contains a fragmented entry (> 32 KB): sampled offsets only
+		frag := (c+c0)%6 == 5 // contains a fragmented entry (> 32 KB): sampled offsets only
 		steps := 2 + g.intn(7)
 		for s := 0; s < steps; s++ {
 			switch x := g.intn(100); {
